@@ -1,9 +1,12 @@
 #!/bin/sh
-# usage: eval_mutant.sh <Cxx> <a|b> [extra checks...]   -> validates, then runs the target check(s) (quick) on /repo + patch
+# usage: eval_mutant.sh <Cxx> <a|b|..> [extra checks...]   -> validates, then runs the target check(s) (quick) on /repo + patch
+# verdict files go to $EVALOUT (default /tmp/evalout), never next to the change itself (its author may still be working there)
 P=$1; L=$2; shift 2
 D=${MUTOUT:-/tmp/mutout}/$P/$L
+O=${EVALOUT:-/tmp/evalout}/$P/$L
+mkdir -p "$O"
 [ -f $D/patch.diff ] || { echo "no patch in $D"; exit 1; }
-/verif/tools/validate_mutant.sh $D > $D/validate.txt 2>&1
-grep -E '^RESULT' $D/validate.txt
-/verif/tools/try_mutant.sh $D/patch.diff quick $P "$@" > $D/eval.txt 2>&1
-grep -vE '^WARNING' $D/eval.txt | head -12
+/verif/tools/validate_mutant.sh $D > $O/validate.txt 2>&1
+grep -E '^RESULT' $O/validate.txt
+/verif/tools/try_mutant.sh $D/patch.diff quick $P "$@" > $O/eval.txt 2>&1
+grep -vE '^WARNING' $O/eval.txt | head -12
